@@ -72,6 +72,8 @@ pub enum UReq {
     Unsubscribe,
     /// manual acknowledgement of the oldest inbound publish not yet acknowledged by the user
     Ack,
+    /// the user asks for a DISCONNECT packet
+    Disconnect,
 }
 
 #[derive(Clone, Debug, PartialEq, Eq, Hash, PartialOrd, Ord, Serialize, Deserialize)]
